@@ -75,6 +75,19 @@ ITEMS = [
 
     Fn(EVAL, "impl<'e> Evaluator<'e> > fn interpret", wrap=W,
        ensures=[('sem', 'match sem(self, *slots, *e) { Res::Val(k) => (r is Ok && r->Ok_0.value == k) || (r is Err && r->Err_0 is RecursionLimit), Res::Unk => true, s => r is Err && agrees_pv(Err::<PartialValue, EvaluationError>(r->Err_0), s) }')]),
+    Fn(EVAL, "impl<'e> Evaluator<'e> > fn evaluate", wrap=W, props=['C02', 'C01'],
+       ensures=[('policy', '''match want_bool(sem(self, p.spec_env(), p.spec_condition())) {
+            Res::Val(k) => (r is Ok && r->Ok_0 == (k == vbool(true))) || (r is Err && r->Err_0 is RecursionLimit),
+            Res::Unk => true,
+            _ => r is Err,
+        }''')]),
+    Fn(EVAL, "impl<'e> Evaluator<'e> > fn partial_evaluate", wrap=W, props=['C02', 'C01', 'C13'],
+       rewrites=[(r'v\.get_as_bool\(\)\.map\(Either::Left\)', r'v.get_as_bool().map(|b: bool| -> (r: Either<bool, Expr>) ensures r == Either::<bool, Expr>::Left(b) { Either::Left(b) })', 1)],
+       ensures=[('policy', '''match want_bool(sem(self, p.spec_env(), p.spec_condition())) {
+            Res::Val(k) => (r is Ok && r->Ok_0 == Either::<bool, Expr>::Left(k == vbool(true))) || (r is Err && r->Err_0 is RecursionLimit),
+            Res::Unk => true,
+            _ => r is Err,
+        }''')]),
     Fn(EVAL, "impl<'e> Evaluator<'e> > fn partial_interpret", wrap=W, attrs=NODEC,
        ensures=[('sem', 'agrees_pv(r, sem(self, *slots, *expr))')],
        rewrites=[
